@@ -111,3 +111,37 @@ Theorem C12_SRi_from_the_integrals : forall (zeta a b A B : R), (0 < b * B)%R ->
                 + (zeta + a + b) / (a * A) * Tz T (i - 1)%Z j (k + 1)%Z)%R.
 Proof. intros zeta a b A B Hy Fa FFa HFa T HT Hx. exact (SRi_from_integrals zeta a b A B Hy Fa HFa T HT Hx). Qed.
 Print Assumptions C12_SRi_from_the_integrals.
+
+Local Open Scope Z_scope.
+(* The table theorem for the integrals themselves: C12_case_value with the two recurrences discharged by Radial/RadialRec.v.
+   T i j k is the improper integral over (0, inf) of r^k exp(-zeta r^2 - a (r-A)^2 - b (r-B)^2) M_i(2aAr) M_j(2bBr) (lower end: at_right 0).
+   Remaining hypotheses: the integrals exist; the boundary terms of the integration by parts vanish; the base integrals values[k-2] are
+   T(0,0,k) (the Dawson-function formulas of compute_base_integrals: compared numerically, C12 correspondence); the cases no recurrence
+   reaches.  Then for EVERY well-formed table that passes the check - in particular the one translated from radial_gen.cpp on this run -
+   the exact-arithmetic value of the case the switch selects for (i,j,k) is the integral T(i,j,k). *)
+Theorem C12_case_value_for_the_integrals : forall (zeta a b A B : R), (0 < a * A)%R -> (0 < b * B)%R -> (zeta + a + b <> 0)%R ->
+  forall T : nat -> nat -> Z -> R,
+  (forall i j k, is_RInt_gen (F zeta a b A B i j k) (at_right 0%R) (Rbar_locally p_infty) (T i j k)) ->
+  (forall i j k, filterlim (H zeta a b A B i j k) (at_right 0%R) (locally 0%R)) ->
+  (forall i j k, filterlim (H zeta a b A B i j k) (Rbar_locally p_infty) (locally 0%R)) ->
+  forall (vals : basis -> R),
+  (forall k, Tz T 0 0 k = vals (BV (k - 2))) ->
+  forall tab, table_wf tab = true -> table_ok tab = true ->
+  (forall i j k l, 0 <= j < 100 -> 0 <= k < 100 -> check_case tab (key_of i j k) = VUnchecked ->
+     lookup tab i j k = Some l -> elc (zeta + a + b) (a * A) (b * B) vals l = Tz T i j k) ->
+  forall i j k c, 0 <= i -> 0 <= j < 100 -> 0 <= k < 100 ->
+    find (fun c => fst c =? key_of i j k) tab = Some c -> ecase (zeta + a + b) (a * A) (b * B) vals (snd c) = Tz T i j k.
+Proof.
+  intros zeta a b A B Hx Hy Hp T HT HB0 HBi vals Hbase tab Hwf Hok Hanch.
+  assert (Fpos : at_right 0%R (fun u => (0 <= u)%R)).
+  { exists (mkposreal 1 Rlt_0_1). intros y _ Hy0. apply Rlt_le. exact Hy0. }
+  assert (Fspos : at_right 0%R (fun u => (0 < u)%R)).
+  { exists (mkposreal 1 Rlt_0_1). intros y _ Hy0. exact Hy0. }
+  apply (case_value (zeta + a + b) (a * A) (b * B) Hp (Rgt_not_eq _ _ Hx) (Rgt_not_eq _ _ Hy) vals (Tz T) Hbase).
+  - intros j k Hj. exact (SRj_from_integrals zeta a b A B Hy (at_right 0%R) Fpos T HT j k Hj).
+  - intros i j k Hi Hj. exact (SRi_from_integrals zeta a b A B Hy (at_right 0%R) Fpos T HT Hx i j k Hi Hj Fspos (HB0 _ _ _) (HBi _ _ _)).
+  - exact Hwf.
+  - exact Hok.
+  - exact Hanch.
+Qed.
+Print Assumptions C12_case_value_for_the_integrals.
